@@ -87,7 +87,12 @@ def gen(rng, i, tier):
         else:
             v = rng.choice([F(1), F(1), F(2), F(-3), F(1, 2), F(7, 4)])
             case["value"] = [v.numerator, v.denominator]
-            if rng.random() < 0.12:
+            if t and rng.random() < 0.15:
+                # the largest magnitude is exactly 1 already (and the target may be something else)
+                j0 = rng.randrange(len(t))
+                t = [(k, (F(rng.choice([1, -1])) if j == j0 else (c / 2 ** 5))) for j, (k, c) in enumerate(t)]
+                case["terms"] = G.jraw(t)
+            elif rng.random() < 0.12:
                 # a model in very small (or very large) units: the scale of the coefficients must not matter
                 e = rng.choice([-1, -1, -1, 1]) * rng.randint(51, 90)
                 t = [(k, c * F(2) ** e) for k, c in t]
